@@ -174,7 +174,9 @@ def run(ctx):
     # other names, and a server that sends the names of its listing as literals: the "does the new name exist" decision
     # rests on the listing being read exactly
     NAME_SETS = [(b"lists\\dev", b"lists\\prod", b"by\\st"), (b'say "hi"', b'say "bye"', b'q"'), ("ét\u00e9".encode(), "\u20ac".encode(), b"x y"),
-                 (b"a\\b", b"ab", b"a\\\\b"), (b"ab", b"a\\b", b"a"), (b"{5}", b"OK", b"NO x")]
+                 (b"a\\b", b"ab", b"a\\\\b"), (b"ab", b"a\\b", b"a"), (b"{5}", b"OK", b"NO x"),
+                 # names that are parts of each other (old / new inside the bystander's name and the reverse)
+                 (b"vac", b"archive", b"vacation"), (b"a", b"b", b"ab"), (b"vacation", b"vac", b"v"), (b"x", b"xy", b"xyz")]
     for (old_, new_, other_), lit in itertools.product(NAME_SETS, (False, "safe")):
         for (o, n, by) in states:
             scripts = {}
@@ -184,7 +186,8 @@ def run(ctx):
                 scripts[old_] = r.choice(BODIES)
             if n != "absent":
                 scripts[new_] = r.choice(BODIES)
-            active = old_ if o == "active" else (new_ if n == "active" else None)
+            # … the bystander being the active script when neither of the two names is
+            active = old_ if o == "active" else (new_ if n == "active" else (other_ if by else None))
             srv = refserver.RefServer(r, scripts=scripts, active=active, version=False, literal_names=lit)
             s = msref.Session()
             g = srv.greeting()
